@@ -8,8 +8,8 @@
 //! the handler / caller received, and the status.
 //!
 //! case lines
-//!   srv <u|ss|cs|bi> <d|c> <acc calls> <snd calls> E n hv* A n hv* F n (flag pc msg)* H <reply|fail> n dis M n hv* R rmsg
-//!   cli <u|ss|cs|bi> <snd calls> <acc calls> UE n hv* UA n hv* Q k reqmsg E n hv* HS <none|code> F n (flag pc msg)* TS <none|code>
+//!   srv.<u|ss|cs|bi> <d|c|D|C> <acc calls> <snd calls> E n hv* A n hv* F n (flag pc msg)* H <reply|fail> n dis M n hv* R rmsg
+//!   cli.<u|ss|cs|bi|U|SS|CS|BI> <snd calls> <acc calls> UE n hv* UA n hv* Q k reqmsg E n hv* HS <none|code> F n (flag pc msg)* TS <none|code>
 //! calls: string over g,d,z (enable gzip/deflate/zstd) and p (pop; route c only), `-` = none.
 use crate::common::*;
 use bytes::{Buf, BufMut, Bytes};
@@ -380,8 +380,25 @@ impl tower_service::Service<Request<Streaming<Vec<u8>>>> for BidiSvc {
     }
 }
 
-fn run_srv(c: &mut Cur<'_>) -> Option<String> {
-    let shape = c.next()?;
+fn enc_letters(h: &http::HeaderMap) -> String {
+    let v: String = h
+        .get_all("grpc-encoding")
+        .iter()
+        .map(|v| match v.as_bytes() {
+            b"gzip" => 'g',
+            b"deflate" => 'd',
+            b"zstd" => 'z',
+            _ => '?',
+        })
+        .collect();
+    if v.is_empty() {
+        "-".into()
+    } else {
+        v
+    }
+}
+
+fn run_srv(shape: &str, c: &mut Cur<'_>) -> Option<String> {
     let route = c.next()?;
     let acc = c.next()?;
     let snd = c.next()?;
@@ -539,8 +556,13 @@ fn run_srv(c: &mut Cur<'_>) -> Option<String> {
         None => "malformed".into(),
     };
     let saw = if rec.saw.is_empty() { "0".to_string() } else { format!("{} {}", rec.saw.len(), rec.saw.join(" ")) };
+    let summary = match &st {
+        Some(s) => format!("s{}.{}.{}", s.code() as i32, err_class(s), enc_letters(&parts.headers)),
+        None => format!("s-.-.{}", enc_letters(&parts.headers)),
+    };
     Some(format!(
-        "called {} saw {} enc {} acc {} st {} fr {}",
+        "{} called {} saw {} enc {} acc {} st {} fr {}",
+        summary,
         rec.called as u8,
         saw,
         header_vals(&parts.headers, "grpc-encoding"),
@@ -622,8 +644,7 @@ impl tower_service::Service<http::Request<tonic::body::Body>> for Transport {
     }
 }
 
-fn run_cli(c: &mut Cur<'_>) -> Option<String> {
-    let shape = c.next()?;
+fn run_cli(shape: &str, c: &mut Cur<'_>) -> Option<String> {
     let snd = c.next()?;
     let acc = c.next()?;
     let umd_enc = c.hexs("UE")?;
@@ -769,8 +790,15 @@ fn run_cli(c: &mut Cur<'_>) -> Option<String> {
         None => "malformed".into(),
     };
     let list = |v: &Vec<String>| if v.is_empty() { "0".to_string() } else { format!("{} {}", v.len(), v.join(" ")) };
+    let outcome = match items.last() {
+        None => "none".to_string(),
+        Some(l) if l.starts_with("ok") => "ok".to_string(),
+        Some(l) => l.clone(),
+    };
     Some(format!(
-        "enc {} acc {} fr {} res {} eacc {}",
+        "c{}.{} enc {} acc {} fr {} res {} eacc {}",
+        outcome,
+        enc_letters(&cap.headers),
         header_vals(&cap.headers, "grpc-encoding"),
         header_vals(&cap.headers, "grpc-accept-encoding"),
         fr_tok,
@@ -782,8 +810,8 @@ fn run_cli(c: &mut Cur<'_>) -> Option<String> {
 pub fn execute(case: &str) -> String {
     let mut c = Cur { t: case.split(' ').filter(|s| !s.is_empty()).collect(), i: 0 };
     let r = match c.next() {
-        Some("srv") => run_srv(&mut c),
-        Some("cli") => run_cli(&mut c),
+        Some(k) if k.starts_with("srv.") => run_srv(&k[4..], &mut c),
+        Some(k) if k.starts_with("cli.") => run_cli(&k[4..], &mut c),
         _ => None,
     };
     r.unwrap_or_else(|| "bad-case".into())
@@ -827,7 +855,7 @@ fn frames_tok(frames: &[(u8, char, Vec<u8>)]) -> String {
 impl SrvCase {
     fn line(&self) -> String {
         format!(
-            "srv {} {} {} {} {} {} {} H {} {} {} {} R {}",
+            "srv.{} {} {} {} {} {} {} H {} {} {} {} R {}",
             self.shape,
             self.route,
             self.acc,
@@ -1018,7 +1046,8 @@ fn req_frames(rng: &mut Rng, hint: char, max: u64) -> Vec<(u8, char, Vec<u8>)> {
         .map(|_| {
             let (flag, pc) = match rng.below(14) {
                 0..=4 => (0u8, 'r'),
-                5..=8 => (1u8, if hint == '-' { *rng.pick(&['g', 'd', 'z', 'r']) } else { hint }),
+                5..=8 if hint == '-' => (0u8, 'r'),
+                5..=8 => (1u8, hint),
                 9 => (1, *rng.pick(&['g', 'd', 'z'])),
                 10 => (0, *rng.pick(&['g', 'd', 'z'])),
                 11 => (*rng.pick(&[2u8, 3, 128, 129, 254, 255]), *rng.pick(&['r', 'g'])),
@@ -1034,6 +1063,47 @@ fn req_frames(rng: &mut Rng, hint: char, max: u64) -> Vec<(u8, char, Vec<u8>)> {
         .collect()
 }
 
+/// the encodings a call string leaves enabled (generator-side bias only; the oracle for this
+/// lives in Lean)
+fn enabled_letters(calls: &str) -> Vec<char> {
+    let mut v: Vec<char> = Vec::new();
+    for c in calls.chars() {
+        match c {
+            'p' => {
+                v.pop();
+            }
+            '-' => {}
+            c => {
+                if !v.contains(&c) {
+                    v.push(c);
+                }
+            }
+        }
+    }
+    v
+}
+
+fn letter_name(c: char) -> &'static str {
+    match c {
+        'g' => "gzip",
+        'd' => "deflate",
+        _ => "zstd",
+    }
+}
+
+/// a `grpc-encoding` for a receiver configured by `acc`: biased towards acceptable values
+fn enc_for(rng: &mut Rng, acc: &str) -> Vec<Vec<u8>> {
+    let en = enabled_letters(acc);
+    match rng.below(20) {
+        0..=6 => vec![],
+        7..=11 if !en.is_empty() => vec![letter_name(*rng.pick(&en)).as_bytes().to_vec()],
+        7..=11 => vec![b"identity".to_vec()],
+        12 | 13 => vec![b"identity".to_vec()],
+        14..=18 => vec![enc_value(rng)],
+        _ => vec![enc_value(rng), enc_value(rng)],
+    }
+}
+
 fn srv_random(rng: &mut Rng) -> SrvCase {
     let shape = *rng.pick(&SHAPES);
     let route = match rng.below(12) {
@@ -1044,17 +1114,41 @@ fn srv_random(rng: &mut Rng) -> SrvCase {
     };
     let acc = calls(rng, route.eq_ignore_ascii_case("c"));
     let snd = calls(rng, route.eq_ignore_ascii_case("c"));
-    let enc: Vec<Vec<u8>> = match rng.below(10) {
-        0..=2 => vec![],
-        3..=8 => vec![enc_value(rng)],
-        _ => vec![enc_value(rng), enc_value(rng)],
-    };
-    let accv: Vec<Vec<u8>> = match rng.below(12) {
+    let enc = enc_for(rng, &acc);
+    let mut accv: Vec<Vec<u8>> = match rng.below(12) {
         0 => vec![],
         1..=9 => vec![list_value(rng)],
         10 => vec![list_value(rng), list_value(rng)],
         _ => vec![list_value(rng), list_value(rng), list_value(rng)],
     };
+    // half of the time make sure something the server may send is on offer somewhere in the
+    // first line (as its own element), so that the compressing paths are well populated
+    let sendable = enabled_letters(&snd);
+    if !sendable.is_empty() && !accv.is_empty() && rng.chance(1, 2) {
+        let name = letter_name(*rng.pick(&sendable)).as_bytes();
+        let v = &mut accv[0];
+        let commas: Vec<usize> = v.iter().enumerate().filter(|(_, b)| **b == b',').map(|(i, _)| i).collect();
+        if v.is_empty() {
+            v.extend_from_slice(name);
+        } else if commas.is_empty() || rng.chance(1, 3) {
+            if rng.chance(1, 2) {
+                v.extend_from_slice(b",");
+                v.extend_from_slice(name);
+            } else {
+                let mut w = name.to_vec();
+                w.extend_from_slice(b", ");
+                w.extend_from_slice(v);
+                *v = w;
+            }
+        } else {
+            let at = *rng.pick(&commas);
+            let mut w = v[..=at].to_vec();
+            w.extend_from_slice(name);
+            w.push(b',');
+            w.extend_from_slice(&v[at + 1..]);
+            *v = w;
+        }
+    }
     let hint = enc.first().and_then(|v| match v.as_slice() {
         b"gzip" => Some('g'),
         b"deflate" => Some('d'),
@@ -1100,7 +1194,7 @@ fn cli_line(
 ) -> String {
     let oc = |o: Option<i32>| o.map(|c| c.to_string()).unwrap_or_else(|| "none".into());
     format!(
-        "cli {} {} {} {} {} Q {} {} {} HS {} {} TS {}",
+        "cli.{} {} {} {} {} Q {} {} {} HS {} {} TS {}",
         shape,
         snd,
         acc,
@@ -1125,11 +1219,7 @@ fn cli_random(rng: &mut Rng) -> String {
         _ => (0..rng.range(2, 4)).map(|_| *rng.pick(&['g', 'd', 'z'])).collect(),
     };
     let acc = calls(rng, false);
-    let enc: Vec<Vec<u8>> = match rng.below(10) {
-        0..=2 => vec![],
-        3..=8 => vec![enc_value(rng)],
-        _ => vec![enc_value(rng), enc_value(rng)],
-    };
+    let enc = enc_for(rng, &acc);
     let hint = enc.first().and_then(|v| match v.as_slice() {
         b"gzip" => Some('g'),
         b"deflate" => Some('d'),
